@@ -491,6 +491,28 @@ fn c16_tree(t: &mut Tctx, shape: &Shape, path: &str) {
 
 pub fn run_c16(cfg: &Cfg) -> Report {
     let mut rep = Report::new("C16");
+    if cfg.tier == Tier::Tiny && cfg.knob_u64("lean", 0) == 1 {
+        // lean interpreter workload (other byte orders): small trees x paths through the three-way key comparison
+        let s = parallel(cfg, 1, |t| {
+            let mut n = 0u64;
+            let limit = t.cfg.knob_u64("lean_shapes", 300);
+            let o = SchemaOpts { max_depth: 3, max_fan: 3, unique_names: false, allow_schema_kind: true };
+            while !t.cfg.expired() && n < limit {
+                n += 1;
+                let depth = t.rng.range(0, 2) as u32;
+                let shape = gen_schema_shape(&mut t.rng, depth, &o);
+                let path = gen_path(&mut t.rng);
+                if path.len() > 64 {
+                    continue;
+                }
+                c16_tree(t, &shape, &path);
+            }
+            t.st.add("lean_trees", n);
+        });
+        rep.stats.merge(s);
+        rep.rule = "lean interpreter workload: small schema trees x paths; const hasher, owned hasher and reference FNV-1a stream must coincide".into();
+        return rep;
+    }
     let s = parallel(cfg, 1, |t| {
         let n = t.cfg.scale(30, 25_000, 600_000);
         for _ in 0..n {
